@@ -5,6 +5,7 @@
 package app
 
 import (
+	"bytes"
 	"compress/gzip"
 	"encoding/hex"
 	"encoding/json"
@@ -351,17 +352,67 @@ func (rp *RepData) loadFromJSON(logger *slog.Logger, vodFS fs.FS, repDataDir, as
 	if len(data) == 0 {
 		return false, nil
 	}
+	if err := checkRepDataJSON(data); err != nil {
+		return true, fmt.Errorf("representation data: %w", err)
+	}
 	if err := json.Unmarshal(data, &rp); err != nil {
 		return true, err
 	}
 	if len(rp.Segments) == 0 {
 		return true, fmt.Errorf("no segments in representation data")
 	}
+	if rp.MediaTimescale < 0 || rp.MpdTimescale <= 0 {
+		return true, fmt.Errorf("representation data: bad timescale %d (media) / %d (mpd)", rp.MediaTimescale, rp.MpdTimescale)
+	}
+	for i, seg := range rp.Segments {
+		if seg.EndTime <= seg.StartTime {
+			return true, fmt.Errorf("representation data: segment %d does not end after its start", i)
+		}
+		if i > 0 && seg.StartTime != rp.Segments[i-1].EndTime {
+			return true, fmt.Errorf("representation data: segment %d does not start where segment %d ends", i, i-1)
+		}
+	}
 	err = rp.addRegExpAndInit(logger, vodFS, assetPath)
 	if err != nil {
 		return true, fmt.Errorf("addRegExpAndInit: %w", err)
 	}
 	return true, nil
+}
+
+// checkRepDataJSON checks that data has the shape that writeToJSON produces: all fields present with a value
+// (encoding/json silently accepts null and ignores unknown fields, which would leave zero values in the table).
+func checkRepDataJSON(data []byte) error {
+	var top map[string]json.RawMessage
+	if err := json.Unmarshal(data, &top); err != nil {
+		return err
+	}
+	isNull := func(raw json.RawMessage) bool { return string(bytes.TrimSpace(raw)) == "null" }
+	for _, key := range []string{"id", "contentType", "codecs", "mpdTimescale", "mediaTimescale", "initURI", "mediaURI",
+		"segments", "defaultSampleDuration", "preEncrypted"} {
+		raw, ok := top[key]
+		if !ok || isNull(raw) {
+			return fmt.Errorf("field %q is missing or null", key)
+		}
+	}
+	if raw, ok := top["constantSampleDuration"]; ok && isNull(raw) {
+		return fmt.Errorf("field %q is null", "constantSampleDuration")
+	}
+	var segs []map[string]json.RawMessage
+	if err := json.Unmarshal(top["segments"], &segs); err != nil {
+		return fmt.Errorf("segments: %w", err)
+	}
+	for i, seg := range segs {
+		if len(seg) != 3 {
+			return fmt.Errorf("segment %d does not have exactly startTime, endTime and nr", i)
+		}
+		for _, key := range []string{"startTime", "endTime", "nr"} {
+			raw, ok := seg[key]
+			if !ok || isNull(raw) {
+				return fmt.Errorf("segment %d: field %q is missing or null", i, key)
+			}
+		}
+	}
+	return nil
 }
 
 func (rp *RepData) addRegExpAndInit(logger *slog.Logger, vodFS fs.FS, assetPath string) error {
